@@ -206,7 +206,11 @@ class Contract:
         c = self.ctx(eng, st, result=result.t if (result is not None and not isinstance(result, E.Ref)) else result, at_exit=True)
         object.__setattr__(c, "_result_val", result)
         for nm, f in self.lemmas:
-            st.assume(f(c))
+            try:
+                g = f(c)
+            except (AttributeError, KeyError):
+                continue          # mentions a local that does not exist on this exit path
+            st.assume(g)
             eng.used_lemmas.add(nm)
         return [(nm, f(c)) for nm, f in self.ensures]
 
